@@ -193,8 +193,22 @@ def run(ctx):
         if not isinstance(cur_n, pb.Signal):
             break
         if 0 in cur_n.shape:
-            # nothing left to compare; Dask's own auto-chunking also divides by zero here
+            # no sample values left to compare: exercise the container methods once and stop
             ctx.probe("pipeline_reached_zero_length")
+            for cname in ("rechunk", "to_dask_array", "persist", "compute"):
+                try:
+                    with tripwire(trip):
+                        kw = {"scheduler": "synchronous"} if cname in ("persist", "compute") else {}
+                        r0 = getattr(cur_d, cname)(**kw)
+                except Exception as e:
+                    ctx.violate("container", f"{cname}:zero-length",
+                                f"{cname}() on a zero-length Dask-backed signal raised "
+                                f"{type(e).__name__}: {e}")
+                if type(r0) is not type(cur_n) or tuple(r0.shape) != tuple(cur_n.shape) \
+                        or meta_snap(r0) != meta_snap(cur_n):
+                    ctx.violate("container", f"{cname}:zero-length",
+                                f"{cname}() changed more than the container of a zero-length signal")
+            trip.clear()
             break
         info = ops.Info(cur_n)
         names = [n for n, o in ops.OPS.items() if o.applies(info) and not o.numpy_only]
